@@ -579,3 +579,79 @@ LEMMAS['C10/reader-student-ranks-bounded'] = dict(
            ('first-rank-and-steps', 'forall(i, 0, len(m.pairs), implies(len(m.pairs[i]) > 0, RR(i)[0] == 1) and forall(j, 0, len(m.pairs[i]) - 1, RR(i)[j + 1] == RR(i)[j] or RR(i)[j + 1] == RR(i)[j] + 1))', 'then-assume'),
            ('rank-at-most-position-plus-one', 'forall(i, 0, len(m.pairs), forall(c, 0, len(m.pairs[i]), RR(i)[c] <= c + 1))', 'then-assume'),
            ('student-ranks-bounded-by-the-number-of-projects', 'forall(i, 0, len(m.pairs), forall(c, 0, len(m.pairs[i]), m.pairs[i][c].rank_student <= m.num_projects))')])
+
+
+# ---- C09 / C08: the text the writer returns is a file the reader accepts, and it denotes the lists that were handed over.
+#      Hypotheses: the writer's precondition (what generate_instances proves at the call site) and postcondition (lines of tokens);
+#      T8 "the file reads back as its lines" written down as a modelling step (file_len / line_toks := the written text);
+#      the ghost tie decisions of a line := the tie vector its list was written from; the definition of elems in both directions.
+#      Goals: every clause of the reader's precondition (the documented file format), under -na 2 / -na 3 and -twopl iff second-side lists were written.
+LL_ = ('list', ('list', 'int')); L_ = ('list', 'int')
+def _reader_defs():
+    from . import fileIO
+    return dict(fileIO.IMPORT_DEFS)
+IO_ = ('dict', 'Instance_options', {'NUMAGENTS': 'int', 'TWOPL': 'bool', 'PC': 'bool'})
+def _file_is(n): return ('file_len() == text_len(R) and forall(i, 0, %s, len(line_toks(i)) == len(text_toks(R, i))'
+                         ' and forall(q, 0, len(text_toks(R, i)), kind(line_toks(i)[q]) == kind(text_toks(R, i)[q]) and value(line_toks(i)[q]) == value(text_toks(R, i)[q]), line_toks(i)[q]), line_toks(i), len(line_toks(i)))' % n)
+def _ties_of(first, n, lists, ties): return 'forall(ln, %s, %s + %s, forall(j, 0, len(%s[ln - (%s)]), line_ties(ln)[j] == %s[ln - (%s)][j], line_ties(ln)[j]), line_ties(ln))' % (first, first, n, lists, first, ties, first)
+def _elem_has_index(lists, n): return 'forall(h, 0, %s, forall(v, implies(v in elems(%s[h]), exists(t, 0, len(%s[h]), %s[h][t] == v))))' % (n, lists, lists, lists)
+def _entry_is_elem(lists, n): return 'forall(i, 0, %s, forall(j, 0, len(%s[i]), %s[i][j] in elems(%s[i])))' % (n, lists, lists, lists)
+_HSH = 'generator_ha_sm_hr:Generator_ha_sm_hr.create_instance'
+_T8 = 'T8-the-file-is-the-written-text'; _R2 = 'requires:'; _E2 = 'ensures:'
+_R2N = ['first-side-ranks-distinct-agents-in-range-with-tie-flags-of-the-same-shape', 'quotas-ordered', 'second-side-lists-rank-exactly-those-who-rank-them']
+_E2N = ['header-line-carries-the-two-counts', 'one-numbered-line-per-first-side-agent-with-exactly-the-list-handed-over',
+        'one-numbered-line-per-second-side-agent-with-quotas-and-list-only-when-given', 'blank-line-then-the-parameter-block']
+_HSH_BIND = {k: k for k in ('n1', 'n2', 'pref_lists_residents', 'res_ties', 'pref_lists_hospitals', 'hosp_ties', 'lower_quotas', 'upper_quotas')}
+LEMMAS['C09/written-file-is-readable-2'] = dict(
+    vars={'n1': 'int', 'n2': 'int', 'pref_lists_residents': LL_, 'res_ties': LL_, 'pref_lists_hospitals': LL_, 'hosp_ties': LL_, 'lower_quotas': L_, 'upper_quotas': L_,
+          'R': 'text', 'instance_options': IO_}, theory=['listsets'], defs=_reader_defs(),
+    hyps=[('requires', _HSH, _HSH_BIND), ('ensures', _HSH, dict(_HSH_BIND, result='R')),
+          ('solver-flags-as-documented', 'NA() == 2 and TW() == (len(pref_lists_hospitals) != 0)'),
+          ('T8-the-file-is-the-written-text', _file_is('2 + n1 + n2')),
+          ('ghost-tie-decisions-first-side', _ties_of('1', 'n1', 'pref_lists_residents', 'res_ties')),
+          ('ghost-tie-decisions-second-side', 'implies(len(pref_lists_hospitals) != 0, %s)' % _ties_of('1 + n1', 'n2', 'pref_lists_hospitals', 'hosp_ties')),
+          ('elems-definition-an-element-has-an-index', 'implies(len(pref_lists_hospitals) != 0, %s)' % _elem_has_index('pref_lists_hospitals', 'n2')),
+          ('elems-definition-an-entry-is-an-element', _entry_is_elem('pref_lists_residents', 'n1'))],
+    goals=[('every-ranked-agent-is-in-range-and-ranks-back', 'implies(TW(), forall(i, 1, n1 + 1, forall(q, 1, len(line_toks(i)), 1 <= value(line_toks(i)[q]) and value(line_toks(i)[q]) <= n2'
+            ' and i in elems(pref_lists_hospitals[value(line_toks(i)[q]) - 1]), line_toks(i)[q]), line_toks(i)))', 'then-assume',
+            ['wf', 'solver-flags-as-documented', _T8, _R2 + _R2N[0], _R2 + _R2N[2], _E2 + _E2N[1], 'elems-definition-an-entry-is-an-element']),
+           ('entry-t-of-a-second-side-list-is-token-t+3-of-its-line', 'implies(TW(), forall(a, 1, n2 + 1, 3 + len(pref_lists_hospitals[a - 1]) == len(line_toks(n1 + a)) and forall(t, 0, len(pref_lists_hospitals[a - 1]),'
+            ' value(line_toks(n1 + a)[t + 3]) == pref_lists_hospitals[a - 1][t], pref_lists_hospitals[a - 1][t]), pref_lists_hospitals[a - 1]))', 'then-assume',
+            ['wf', 'solver-flags-as-documented', _T8, _R2 + _R2N[0], _R2 + _R2N[2], _E2 + _E2N[2]]),
+           ('whoever-is-on-a-second-side-list-is-listed-on-that-line', 'implies(TW(), forall(a, 1, n2 + 1, forall(v, implies(v in elems(pref_lists_hospitals[a - 1]), listed(a, v)))))', 'then-assume',
+            ['wf', 'solver-flags-as-documented', _T8, _R2 + _R2N[0], _R2 + _R2N[2], _E2 + _E2N[0], 'entry-t-of-a-second-side-list-is-token-t+3-of-its-line', 'elems-definition-an-element-has-an-index']),
+           ('requires', 'fileIO:_import_from_file', {'instance_options': 'instance_options'}, None, None,
+            {'second-side-lists-rank-those-who-rank-them': ['wf', 'solver-flags-as-documented', _T8, _R2 + _R2N[0], _R2 + _R2N[1], _E2 + _E2N[0], 'every-ranked-agent-is-in-range-and-ranks-back', 'whoever-is-on-a-second-side-list-is-listed-on-that-line']})])
+
+_SPA = 'generator_spa:Generator_spa.create_instance'
+_SPA_BIND = {k: k for k in ('n1', 'n2', 'n3', 'pref_lists_students', 'st_ties', 'project_lecturers', 'lower_quotas', 'upper_quotas', 'pref_lists_lecturers', 'lec_ties',
+                            'lec_lower_quotas', 'lec_targets', 'lec_upper_quotas')}
+_R3N = ['students-rank-distinct-projects-in-range-with-tie-flags-of-the-same-shape', 'one-lecturer-in-range-per-project', 'project-quotas-ordered', 'lecturer-quotas-ordered',
+        'lecturer-lists-rank-exactly-the-students-who-rank-one-of-their-projects']
+_E3N = ['header-line-carries-the-three-counts', 'one-numbered-line-per-student-with-exactly-the-list-handed-over', 'one-numbered-line-per-project-with-quotas-and-lecturer',
+        'one-numbered-line-per-lecturer-with-quotas-target-and-list-only-when-given', 'blank-line-then-the-parameter-block']
+_BASE3 = ['wf', 'solver-flags-as-documented', _T8] + [_R2 + x for x in _R3N[:4]] + [_E2 + _E3N[0]]
+LEMMAS['C09/written-file-is-readable-3'] = dict(
+    vars={'n1': 'int', 'n2': 'int', 'n3': 'int', 'pref_lists_students': LL_, 'st_ties': LL_, 'project_lecturers': L_, 'lower_quotas': L_, 'upper_quotas': L_,
+          'pref_lists_lecturers': LL_, 'lec_ties': LL_, 'lec_lower_quotas': L_, 'lec_targets': L_, 'lec_upper_quotas': L_,
+          'R': 'text', 'instance_options': IO_}, theory=['listsets'], defs=_reader_defs(),
+    hyps=[('requires', _SPA, _SPA_BIND), ('ensures', _SPA, dict(_SPA_BIND, result='R')),
+          ('solver-flags-as-documented', 'NA() == 3 and TW() == (len(pref_lists_lecturers) != 0)'),
+          ('T8-the-file-is-the-written-text', _file_is('2 + n1 + n2 + n3')),
+          ('ghost-tie-decisions-first-side', _ties_of('1', 'n1', 'pref_lists_students', 'st_ties')),
+          ('ghost-tie-decisions-second-side', 'implies(len(pref_lists_lecturers) != 0, %s)' % _ties_of('1 + n1 + n2', 'n3', 'pref_lists_lecturers', 'lec_ties')),
+          ('elems-definition-an-element-has-an-index', 'implies(len(pref_lists_lecturers) != 0, %s)' % _elem_has_index('pref_lists_lecturers', 'n3')),
+          ('elems-definition-an-entry-is-an-element', _entry_is_elem('pref_lists_students', 'n1'))],
+    goals=[('the-lecturer-field-of-a-project-line-is-its-lecturer', 'forall(ln, n1 + 1, n1 + n2 + 1, value(line_toks(ln)[3]) == project_lecturers[ln - n1 - 1] and 1 <= project_lecturers[ln - n1 - 1] and project_lecturers[ln - n1 - 1] <= n3, line_toks(ln))',
+            'then-assume', _BASE3 + [_E2 + _E3N[2]]),
+           ('every-ranked-project-is-in-range-and-its-lecturer-ranks-back', 'implies(TW(), forall(i, 1, n1 + 1, forall(q, 1, len(line_toks(i)), 1 <= value(line_toks(i)[q]) and value(line_toks(i)[q]) <= n2'
+            ' and i in elems(pref_lists_lecturers[project_lecturers[value(line_toks(i)[q]) - 1] - 1]), line_toks(i)[q]), line_toks(i)))', 'then-assume',
+            _BASE3 + [_R2 + _R3N[4], _E2 + _E3N[1], 'elems-definition-an-entry-is-an-element']),
+           ('entry-t-of-a-lecturer-list-is-token-t+4-of-its-line', 'implies(TW(), forall(a, 1, n3 + 1, 4 + len(pref_lists_lecturers[a - 1]) == len(line_toks(n1 + n2 + a)) and forall(t, 0, len(pref_lists_lecturers[a - 1]),'
+            ' value(line_toks(n1 + n2 + a)[t + 4]) == pref_lists_lecturers[a - 1][t], pref_lists_lecturers[a - 1][t]), pref_lists_lecturers[a - 1]))', 'then-assume',
+            _BASE3 + [_R2 + _R3N[4], _E2 + _E3N[3]]),
+           ('whoever-is-on-a-lecturer-list-is-listed-on-that-line', 'implies(TW(), forall(a, 1, n3 + 1, forall(v, implies(v in elems(pref_lists_lecturers[a - 1]), listed(a, v)))))', 'then-assume',
+            _BASE3 + [_R2 + _R3N[4], 'entry-t-of-a-lecturer-list-is-token-t+4-of-its-line', 'elems-definition-an-element-has-an-index']),
+           ('requires', 'fileIO:_import_from_file', {'instance_options': 'instance_options'}, None, None,
+            {'second-side-lists-rank-those-who-rank-them': _BASE3 + ['the-lecturer-field-of-a-project-line-is-its-lecturer', 'every-ranked-project-is-in-range-and-its-lecturer-ranks-back',
+                                                                      'whoever-is-on-a-lecturer-list-is-listed-on-that-line']})])
